@@ -207,7 +207,7 @@ func (c *Controller) Execute(ctx context.Context) error {
 			c.peerID = ""
 			c.tpt = nil
 			for _, link := range c.links {
-				c.flushEstablishedLink(link, true)
+				c.flushEstablishedLink(link, true, nil)
 			}
 			broadcast()
 		})
@@ -379,8 +379,9 @@ func (c *Controller) DialPeerAddr(ctx context.Context, peerID peer.ID, opts *dia
 }
 
 // flushEstablishedLink closes an established link and cleans it up.
+// nextLnk is the link that replaces it, if any.
 // mtx is locked by caller
-func (c *Controller) flushEstablishedLink(el *establishedLink, hasNextLink bool) {
+func (c *Controller) flushEstablishedLink(el *establishedLink, hasNextLink bool, nextLnk link.Link) {
 	le := c.loggerForLink(el.lnk)
 	le.Info("link lost/closed")
 
@@ -422,7 +423,12 @@ func (c *Controller) flushEstablishedLink(el *establishedLink, hasNextLink bool)
 			return false
 		}
 
-		// clear the lnk value and restart if we dont already have a new link.
+		// hand the dialer over to the replacement link, so that it is restarted
+		// when that link is lost. otherwise clear the lnk value and restart.
+		if nextLnk != nil && nextLnk.GetRemotePeer() == peerID {
+			ld.lnk.SetValue(nextLnk)
+			return false
+		}
 		ld.lnk.SetValue(nil)
 		return !hasNextLink
 	})
